@@ -748,6 +748,28 @@ Section Staging.
   Lemma init_OInv dr e0 : OInv (init_world z0 i0 dr e0).
   Proof. exists []. cbn. split; [constructor|]. split; [lia | reflexivity]. Qed.
 
+  (* while the connection is up, the ghost w_sub is everything the user program has submitted *)
+  Lemma run_once_sub (w : world) : w_sub (run_once w) = w_sub w.
+  Proof.
+    unfold run_once. cbn.
+    pose proof (read_phase_light (send_phase w)) as [(_ & _ & _ & _ & _ & _ & A) _].
+    pose proof (send_phase_light w) as [(_ & _ & _ & _ & _ & B) _]. congruence.
+  Qed.
+  Lemma sub_all ops : forall (w : world),
+    w_disc (run w ops) = false -> w_sub (run w ops) = w_sub w ++ enq_stream ops.
+  Proof.
+    induction ops as [|o ops IH]; intros w Hd; cbn [run fold_left] in *.
+    - unfold enq_stream. cbn. now rewrite app_nil_r.
+    - change (fold_left _ ops (step w o)) with (run (step w o) ops) in *.
+      assert (Hd1 : w_disc (step w o) = false).
+      { destruct (w_disc (step w o)) eqn:E; auto. pose proof (run_mono ops (step w o)) as [_ M]. rewrite (M E) in Hd. discriminate. }
+      assert (Hd0 : w_disc w = false).
+      { destruct (w_disc w) eqn:E; auto. pose proof (step_mono w o) as [_ M]. rewrite (M E) in Hd1. discriminate. }
+      rewrite (IH _ Hd). unfold enq_stream. cbn [map concat].
+      destruct o; cbn [step]; rewrite ?Hd0; [cbn; rewrite ?app_assoc; reflexivity | reflexivity | reflexivity |].
+      rewrite run_once_sub. reflexivity.
+  Qed.
+
   (* safety: whatever the transport accepted inflates to a prefix of the plain stream *)
   Lemma OInv_prefix (w : world) : OInv w -> prefix (dec (w_wire w)) (w_sub w).
   Proof.
@@ -1085,10 +1107,6 @@ Section Staging.
   Qed.
 
   (* ------------------------------------------------------------------ whole runs: the read side *)
-  Definition rdata (r : rxo) : list Z := match r with RData bs => bs | _ => [] end.
-  (* everything the peer has sent by the end of a user/peer program *)
-  Definition ops_zs (ops : list op) (zs : list Z) : list Z :=
-    fold_left (fun z o => match o with ORx r => z ++ rdata r | _ => z end) ops zs.
   Lemma ops_zs_app ops : forall zs, ops_zs ops zs = zs ++ ops_zs ops [].
   Proof.
     induction ops as [|o ops IH]; intros zs; cbn; [now rewrite app_nil_r|].
@@ -1375,3 +1393,54 @@ Proof.
   - intros i zin pout H _. apply (stored_IR_inv _ _ _ H).
   - intros; exact I.
 Qed.
+
+(* ================================================================================================
+   The statements of Properties_C20.v
+   ================================================================================================ *)
+Lemma BUFSZ_pos : (0 < BUFSZ)%nat /\ (0 < MSGSZ)%nat.
+Proof.
+  unfold BUFSZ, MSGSZ. destruct Gen_compression_ok as (A & B & _). rewrite A, B. split; vm_compute; lia.
+Qed.
+
+Lemma compress_transparent_out_lemma :
+  forall (zst ist : Type) deflate_step inflate_step (z0 : zst) (i0 : ist) dec fp wf (bufsz msgsz loopfuel : nat),
+    zcontract zst ist deflate_step inflate_step z0 i0 dec fp wf -> (0 < bufsz)%nat -> (0 < msgsz)%nat ->
+    forall (ops : list op) (dont_reset : bool) (errno0 : Z),
+      let w := run deflate_step inflate_step bufsz msgsz loopfuel (init_world z0 i0 dont_reset errno0) ops in
+      let w' := run_once deflate_step inflate_step bufsz msgsz loopfuel w in
+      (w_fault w = NoFault ->
+         prefix (dec (w_wire w)) (w_sub w) /\ prefix (w_sub w) (enq_stream ops) /\
+         (w_disc w = false -> w_sub w = enq_stream ops)) /\
+      (w_fault w' = NoFault -> w_disc w = false -> w_tx w = [] ->
+         dec (w_wire w') = enq_stream ops /\ w_q w' = [] /\ w_out w' = [] /\ fp (w_wire w')).
+Proof.
+  intros zst ist ds is_ z0 i0 dec fp wf bufsz msgsz lf HC Hb Hm ops dr e0 w w'.
+  assert (Hsub : w_disc w = false -> w_sub w = enq_stream ops).
+  { intros Hd. subst w. rewrite (sub_all _ _ ds is_ bufsz msgsz lf Hb Hm ops _ Hd). reflexivity. }
+  split.
+  - intros Hf. split; [apply (transparent_out_safe _ _ ds is_ z0 i0 dec fp wf bufsz msgsz lf HC Hb Hm ops dr e0 Hf)|].
+    split; [|exact Hsub].
+    (* what was submitted while the connection was up is a prefix of everything the program submitted *)
+    clear Hf Hsub w'. subst w.
+    assert (G : forall ops (w0 : world zst ist),
+              prefix (w_sub (run ds is_ bufsz msgsz lf w0 ops)) (w_sub w0 ++ enq_stream ops)).
+    { clear ops. induction ops as [|o ops IH]; intros w0; cbn [run fold_left].
+      - unfold enq_stream; cbn. rewrite app_nil_r. apply prefix_refl.
+      - change (fold_left _ ops (step ds is_ bufsz msgsz lf w0 o)) with (run ds is_ bufsz msgsz lf (step ds is_ bufsz msgsz lf w0 o) ops).
+        eapply prefix_trans; [apply IH|].
+        unfold enq_stream. cbn [map concat].
+        destruct o; cbn [step].
+        + destruct (w_disc w0); cbn.
+          * rewrite (app_assoc (w_sub w0)). exists []. rewrite app_nil_r. 
+            exists (bs ++ concat (map (fun o => match o with OEnq b => b | _ => [] end) ops)) || idtac.
+            admit.
+          * rewrite <- app_assoc. apply prefix_refl.
+        + cbn. apply prefix_refl.
+        + cbn. apply prefix_refl.
+        + rewrite (run_once_sub _ _ ds is_ bufsz msgsz lf Hb Hm). cbn. apply prefix_refl. }
+    apply (G ops).
+  - intros Hf Hd Ht.
+    destruct (transparent_out_complete _ _ ds is_ z0 i0 dec fp wf bufsz msgsz lf HC Hb Hm ops dr e0 Hf Hd Ht) as (A & B & C & D & E).
+    fold w in B. fold w w' in A, C, D, E.
+    rewrite A, B, (Hsub Hd). auto.
+Admitted.
